@@ -104,6 +104,24 @@ static void paint(const char *kind, uint64_t seed, int x0, int y0, int w, int h,
       if (left == 0) { c = pal[vh_rand() % n]; left = 1 + (long)(vh_rand() % maxrun); }
       setpx(x0 + x, y0 + y, c | TOP); left--;
     }
+  } else if (!strcmp(kind, "runsx")) {        /* runs whose lengths sit on the run-length coding limits */
+    static const long lens[] = { 1, 2, 3, 254, 255, 256, 257, 509, 510, 511, 512, 766 };
+    uint32_t c = pal[0]; long left = 0; int k = 0;
+    for (y = 0; y < h; y++) for (x = 0; x < w; x++) {
+      if (left == 0) { k++; c = pal[k % n]; left = lens[vh_rand() % (sizeof lens / sizeof lens[0])]; }
+      setpx(x0 + x, y0 + y, c | TOP); left--;
+    }
+  } else if (!strcmp(kind, "edge127")) {      /* exactly 127 colours; the 127th first appears in the last run
+                                                 (b>>4 == 0) or in the last but one (b>>4 == 1) */
+    long total = (long)w * h, i2 = 0, tail = 3 + ((b >> 4) & 1) * 2;
+    for (y = 0; y < h; y++) for (x = 0; x < w; x++, i2++) {
+      uint32_t v;
+      if (i2 < 126) v = pal[i2];                              /* 126 colours, one pixel each */
+      else if (i2 < total - tail) v = pal[(i2 * 7) % 126];
+      else if (i2 < total - tail + 3) v = pal[126];            /* the 127th colour, a run of 3 */
+      else v = pal[5];                                         /* one more run after it */
+      setpx(x0 + x, y0 + y, v | TOP);
+    }
   } else if (!strcmp(kind, "vruns")) {        /* column-wise runs */
     uint32_t c = pal[0]; long left = 0;
     for (x = 0; x < w; x++) for (y = 0; y < h; y++) {
@@ -124,8 +142,15 @@ static void paint(const char *kind, uint64_t seed, int x0, int y0, int w, int h,
                                                  tile to tile (encoder state across tiles) */
     int T = (int)((b >> 4) > 0 ? (b >> 4) : 16), tx, ty;
     for (ty = 0; ty < h; ty += T) for (tx = 0; tx < w; tx += T) {
+      static const int cyc[] = { 1, 2, 1, 4, 1, 0, 3, 2, 3, 5, 1, 1, 2, 0, 1 };
+      static int cycpos = 0;
       int style = (int)(vh_rand() % 6);
       uint32_t c0 = pal[vh_rand() % n], c1 = pal[vh_rand() % n];
+      if (b & 2) {   /* deterministic cycle of styles over two fixed colours: encoder state transitions
+                        mono -> raw -> mono (same fg), mono -> coloured -> mono, solid in between, ... */
+        style = cyc[cycpos++ % (int)(sizeof cyc / sizeof cyc[0])];
+        c0 = pal[0]; c1 = pal[n > 1 ? 1 : 0];
+      }
       for (y = ty; y < ty + T && y < h; y++) for (x = tx; x < tx + T && x < w; x++) {
         uint32_t v;
         switch (style) {
